@@ -1045,7 +1045,6 @@ func c13R4(c *kit.Ctx, m *ruModel, e *kit.Func, roles *c13Roles, r4 *kit.Rule) {
 }
 
 func c13Caller(c *kit.Ctx, m *ruModel, e, k *kit.Func, roles *c13Roles, runners, inactors map[*kit.Func]int, r4 *kit.Rule) {
-	info := k.Info()
 	g := c.P.Graph(k)
 	// call sites of the evaluator, in source order
 	type site struct {
